@@ -5,10 +5,10 @@
    Every statement quantifies over ALL shapes, axes, patterns and an arbitrary element type V.
    `canonical` = coordinates in range, strictly increasing lexicographically, one datum per coordinate.
 
-   D7 (roll guard) and D12 (float division in the -1 inference) were repaired in /repo: their statements are proved
-   in full (roll_axes_den, reshape_minus1_spec, gcxs_reshape_minus1_spec).  The `_refuted` statements below are the findings still present:
-   each shows, by a concrete witness, that the corresponding full statement ("accepted exactly when NumPy accepts")
-   is false of the code; the `_den` / `_partial` theorem beside it is the proved part. *)
+   Every finding of this property except one was repaired in /repo (D7, D12, and in round 7: squeeze, flip, moveaxis,
+   broadcast_to, pad, reshape with several -1, 0-d GCXS/DOK); the corresponding statements are now the positive, full
+   ones (accepted exactly when NumPy accepts, same result, ValueError otherwise).  The single `_refuted` statement left
+   is the documented restriction of sparse.roll (a tuple of shifts against one axis). *)
 From Coq Require Import ZArith List Bool Sorting.Sorted.
 From Verif Require Import Py Shape COO COOP GCXS Convert ConvertG G_shapeops ShapeOps NpShapeOps ShapeOpsP ShapeOpsG ShapeOpsGP.
 Import ListNotations.
@@ -111,8 +111,8 @@ Theorem swapaxes_den :
 Proof. exact swapaxes_den_proof. Qed.
 Print Assumptions swapaxes_den.
 
-(* moveaxis: the transposition by the axis order computed by NumPy's own insertion algorithm (moveaxis_order);
-   its agreement with the declarative np_moveaxis_perm is checked by correspondence only. *)
+(* moveaxis: the transposition by the axis order computed by NumPy's own insertion algorithm (moveaxis_order), which
+   equals the declarative np_moveaxis_perm (moveaxis_order_spec_upto_5d); the destination axes are distinct. *)
 Theorem moveaxis_den :
   forall (V : Type) (veqb : V -> V -> bool) (x : coo V),
     canonical V x ->
@@ -124,6 +124,7 @@ Theorem moveaxis_den :
     Forall (axis_ok (Z.of_nat (length (c_shape x)))) (ax_list source) /\
     Forall (axis_ok (Z.of_nat (length (c_shape x)))) (ax_list destination) /\
     length src = length dst /\
+    NoDup dst /\
     is_perm (Z.of_nat (length (c_shape x))) perm = true /\
     c_shape r = np_transpose_shape (c_shape x) perm /\
     c_fill r = c_fill x /\
@@ -133,19 +134,28 @@ Theorem moveaxis_den :
 Proof. exact moveaxis_den_proof. Qed.
 Print Assumptions moveaxis_den.
 
-(* F10 (GENERATED `-1` inference + size test): with at most one -1 written, the target the code computes is NumPy's,
-   errors included.  Full statement since the repair of D12 (integer arithmetic): no size bound. *)
+(* repeated destination axes are rejected as NumPy does (commit 1529999); every rejection is a ValueError. *)
+Theorem moveaxis_rejects :
+  forall (V : Type) (x : coo V) (source destination : axarg),
+    (Forall (axis_ok (Z.of_nat (length (c_shape x)))) (ax_list destination) ->
+     Forall (axis_ok (Z.of_nat (length (c_shape x)))) (ax_list source) ->
+     ~ NoDup (map (fun a : Z => a mod Z.of_nat (length (c_shape x))) (ax_list destination)) ->
+     coo_moveaxis x source destination = Raise ValueError) /\
+    (forall e : exc, coo_moveaxis x source destination = Raise e -> e = ValueError).
+Proof. exact moveaxis_rejects_proof. Qed.
+Print Assumptions moveaxis_rejects.
+
+(* F10 (GENERATED `-1` inference + size test): the target the code computes is NumPy's for EVERY requested shape, errors
+   included (several -1 are rejected since commit dbf0c20; integer arithmetic since ac7b716: no size bound). *)
 Theorem reshape_minus1_spec :
-  forall (sh : shape) (new : list Z),
-    shape_ok sh -> (count_m1 new <= 1)%nat -> coo_reshape_shape sh new = np_reshape_target sh new.
+  forall (sh : shape) (new : list Z), shape_ok sh -> coo_reshape_shape sh new = np_reshape_target sh new.
 Proof. exact reshape_minus1_spec_proof. Qed.
 Print Assumptions reshape_minus1_spec.
 
-(* the same for GCXS.reshape's own copy of the inference and size test (integer arithmetic since commit 0bffb82;
-   the GCXS coordinate conversion itself is not modelled) *)
+(* the same for GCXS.reshape's own copy of the inference and size test. *)
 Theorem gcxs_reshape_minus1_spec :
   forall (sh : shape) (new : list Z),
-    shape_ok sh -> (count_m1 new <= 1)%nat -> gcxs_reshape_shape sh new = np_reshape_target sh new.
+    shape_ok sh -> gcxs_reshape_shape sh new = np_reshape_target sh new.
 Proof. exact gcxs_reshape_minus1_spec_proof. Qed.
 Print Assumptions gcxs_reshape_minus1_spec.
 
@@ -159,7 +169,7 @@ Theorem reshape_den :
     shape_ok (c_shape r) /\
     size (c_shape r) = size (c_shape x) /\
     c_fill r = c_fill x /\
-    ((count_m1 new <= 1)%nat -> np_reshape_target (c_shape x) new = Ok (c_shape r)) /\
+    np_reshape_target (c_shape x) new = Ok (c_shape r) /\
     (forall ix : idx, in_range (c_shape r) ix -> den r ix = np_reshape (c_shape x) (c_shape r) (den x) ix).
 Proof. exact reshape_den_proof. Qed.
 Print Assumptions reshape_den.
@@ -185,24 +195,15 @@ Theorem reshape_accepts :
 Proof. exact reshape_accepts_proof. Qed.
 Print Assumptions reshape_accepts.
 
-(* PARTIAL (clause reshape_several_minus1): with at most one -1, every target NumPy rejects raises ValueError.
-   The full statement (no hypothesis on the number of -1) is FALSE of the code: reshape_several_minus1_refuted. *)
-Theorem reshape_rejects_partial :
+(* every target NumPy rejects raises ValueError (full statement since commit dbf0c20). *)
+Theorem reshape_rejects :
   forall (V : Type) (x : coo V),
     canonical V x ->
     shape_ok (c_shape x) ->
     forall (new : list Z) (e : exc),
-    (count_m1 new <= 1)%nat ->
     np_reshape_target (c_shape x) new = Raise e -> coo_reshape x new = Raise ValueError.
 Proof. exact reshape_rejects_proof. Qed.
-Print Assumptions reshape_rejects_partial.
-
-(* finding: x.reshape((-1, -1)) on a size-1 (or size-0) array returns shape (1, 1); NumPy raises ValueError. *)
-Theorem reshape_several_minus1_refuted :
-  exists (x : coo Z) (new : list Z) (r : coo Z),
-      canonical Z x /\ np_reshape_target (c_shape x) new = Raise ValueError /\ coo_reshape x new = Ok r.
-Proof. exact reshape_several_minus1_refuted_proof. Qed.
-Print Assumptions reshape_several_minus1_refuted.
+Print Assumptions reshape_rejects.
 
 (* flatten = reshape(-1). *)
 Theorem flatten_den :
@@ -225,6 +226,7 @@ Theorem flip_den :
     coo_flip x axis = Ok r ->
     let ax := map (fun a : Z => a mod Z.of_nat (length (c_shape x))) (flip_axes V x axis) in
     Forall (axis_ok (Z.of_nat (length (c_shape x)))) (flip_axes V x axis) /\
+    NoDup ax /\
     c_shape r = c_shape x /\
     c_fill r = c_fill x /\
     canonical V r /\
@@ -233,21 +235,16 @@ Theorem flip_den :
 Proof. exact flip_den_proof. Qed.
 Print Assumptions flip_den.
 
-(* flip is accepted exactly when every axis number is in range (IndexError otherwise).  NumPy additionally rejects
-   repeated axes: flip_repeated_axis_refuted (clause flip_repeated_axis). *)
+(* flip is accepted exactly when NumPy accepts: every axis in range and, once normalised, distinct (commit 7be2e09);
+   every rejection is a ValueError. *)
 Theorem flip_accepts_iff :
   forall (V : Type) (x : coo V) (axis : axarg),
-    (exists r : coo V, coo_flip x axis = Ok r) <->
-    Forall (axis_ok (Z.of_nat (length (c_shape x)))) (flip_axes V x axis).
+    ((exists r : coo V, coo_flip x axis = Ok r) <->
+     Forall (axis_ok (Z.of_nat (length (c_shape x)))) (flip_axes V x axis) /\
+     NoDup (map (fun a : Z => a mod Z.of_nat (length (c_shape x))) (flip_axes V x axis))) /\
+    (forall e : exc, coo_flip x axis = Raise e -> e = ValueError).
 Proof. exact flip_accepts_iff_proof. Qed.
 Print Assumptions flip_accepts_iff.
-
-(* finding: flip(x, axis=(0, -2)) on a 2-d array flips axis 0 once; NumPy raises ValueError (repeated axis). *)
-Theorem flip_repeated_axis_refuted :
-  exists (x : coo Z) (l : list Z) (r : coo Z),
-      canonical Z x /\ sdup (map (fun a : Z => a mod ndim x) l) = true /\ coo_flip x (AxTup l) = Ok r.
-Proof. exact flip_repeated_axis_refuted_proof. Qed.
-Print Assumptions flip_repeated_axis_refuted.
 
 (* roll along axes: any shift (negative, larger than the extent), scalar shift broadcast over the axes, repeated axes
    accumulate.  Full statement since the repair of D7 (the guard is per axis and always passes on intp). *)
@@ -270,7 +267,7 @@ Proof. exact roll_axes_den_proof. Qed.
 Print Assumptions roll_axes_den.
 
 (* roll is accepted exactly when the axes are in range and (one shift, or as many shifts as axes).  NumPy also
-   broadcasts several shifts against ONE axis: roll_tuple_shift_single_axis_refuted. *)
+   broadcasts several shifts against ONE axis: roll_tuple_shift_single_axis_refuted (the one open, documented finding). *)
 Theorem roll_axes_accepts_iff :
   forall (V : Type) (x : coo V) (shift : shiftarg) (axis : list Z),
     (exists r : coo V, coo_roll_axes x shift axis = Ok r) <->
@@ -323,13 +320,15 @@ Theorem expand_dims_accepts_iff :
 Proof. exact expand_dims_accepts_iff_proof. Qed.
 Print Assumptions expand_dims_accepts_iff.
 
-(* squeeze (None / int / tuple): passes sorted=True — dropping length-1 axes keeps the order (proved). *)
+(* squeeze (None / int / tuple, negative axis numbers counted from the end since commit 71cae31): passes sorted=True —
+   dropping length-1 axes keeps the order (proved). *)
 Theorem squeeze_den :
   forall (V : Type) (veqb : V -> V -> bool) (x : coo V),
     canonical V x ->
     forall (axis : axarg) (r : coo V),
     coo_squeeze x axis = Ok r ->
     let ax := squeeze_axes V x axis in
+    NoDup ax /\
     Forall (fun d : Z => In d (squeezable V x)) ax /\
     c_shape r = np_squeeze_shape (c_shape x) ax /\
     c_fill r = c_fill x /\
@@ -339,42 +338,17 @@ Theorem squeeze_den :
 Proof. exact squeeze_den_proof. Qed.
 Print Assumptions squeeze_den.
 
-(* PARTIAL acceptance: squeeze accepts exactly NON-NEGATIVE axis numbers of length-1 axes.  NumPy also accepts negative
-   axis numbers (squeeze_negative_axis_refuted) and rejects repeated ones (squeeze_duplicate_axis_refuted). *)
+(* squeeze is accepted exactly when the normalised axes are distinct axes of length 1, as NumPy (commit 71cae31). *)
 Theorem squeeze_accepts_iff :
   forall (V : Type) (x : coo V) (axis : axarg),
     (exists r : coo V, coo_squeeze x axis = Ok r) <->
-    Forall (fun d : Z => In d (squeezable V x)) (squeeze_axes V x axis).
+    NoDup (squeeze_axes V x axis) /\ Forall (fun d : Z => In d (squeezable V x)) (squeeze_axes V x axis).
 Proof. exact squeeze_accepts_iff_proof. Qed.
 Print Assumptions squeeze_accepts_iff.
 
-(* finding: x.squeeze(-1) on shape (2, 1) raises ValueError; NumPy returns shape (2,). *)
-Theorem squeeze_negative_axis_refuted :
-  exists (x : coo Z) (a : Z),
-      canonical Z x /\
-      np_normalize_axis (ndim x) a = Ok 1 /\
-      sget (c_shape x) 1 0 = 1 /\ coo_squeeze x (AxInt a) = Raise ValueError.
-Proof. exact squeeze_negative_axis_refuted_proof. Qed.
-Print Assumptions squeeze_negative_axis_refuted.
-
-(* finding: x.squeeze((1, 1)) returns; NumPy raises ValueError (duplicate value in 'axis'). *)
-Theorem squeeze_duplicate_axis_refuted :
-  exists (x : coo Z) (l : list Z) (r : coo Z),
-      canonical Z x /\ sdup l = true /\ coo_squeeze x (AxTup l) = Ok r.
-Proof. exact squeeze_duplicate_axis_refuted_proof. Qed.
-Print Assumptions squeeze_duplicate_axis_refuted.
-
-(* finding: moveaxis(x, (0, 2), (1, 1)) returns; NumPy raises ValueError (repeated axis in destination). *)
-Theorem moveaxis_repeated_destination_refuted :
-  exists (x : coo Z) (s d : list Z) (r : coo Z),
-      canonical Z x /\
-      sdup (map (fun a : Z => a mod ndim x) d) = true /\ coo_moveaxis x (AxTup s) (AxTup d) = Ok r.
-Proof. exact moveaxis_repeated_destination_refuted_proof. Qed.
-Print Assumptions moveaxis_repeated_destination_refuted.
-
-(* PARTIAL (clause pad_negative_width): constant pad with non-negative widths (scalar / pair / per-axis pairs, as
-   np.broadcast_to(pad_width, (ndim, 2))), constant_values equal to the fill value. *)
-Theorem pad_partial :
+(* constant pad with non-negative widths (scalar / pair / per-axis pairs, as np.broadcast_to(pad_width, (ndim, 2))),
+   constant_values equal to the fill value; the coordinate and extent expressions are GENERATED (Gen/S_shapeops.v). *)
+Theorem pad_den :
   forall (V : Type) (veqb : V -> V -> bool),
     (forall a b : V, veqb a b = true <-> a = b) ->
     forall x : coo V,
@@ -382,8 +356,8 @@ Theorem pad_partial :
     shape_ok (c_shape x) ->
     forall (pw : padw) (cv : V) (prs : list (Z * Z)),
     veqb cv (c_fill x) = true ->
+    padw_neg pw = false ->
     pad_pairs (length (c_shape x)) pw = Ok prs ->
-    pads_nonneg prs ->
     exists r : coo V,
       coo_pad veqb x pw cv = Ok r /\
       c_shape r = np_pad_shape (c_shape x) prs /\
@@ -392,25 +366,19 @@ Theorem pad_partial :
       (prunedb veqb x = true -> prunedb veqb r = true) /\
       (forall ix : idx, in_range (c_shape r) ix -> den r ix = np_pad (c_shape x) prs cv (den x) ix).
 Proof. exact pad_den_proof. Qed.
-Print Assumptions pad_partial.
+Print Assumptions pad_den.
 
-(* a constant different from the fill value, or a pad_width that does not broadcast, is rejected. *)
+(* a constant different from the fill value, a negative width (as NumPy, commit d798d44) or a pad_width that does not
+   broadcast is rejected. *)
 Theorem pad_rejects :
   forall (V : Type) (veqb : V -> V -> bool) (x : coo V) (pw : padw) (cv : V),
     (veqb cv (c_fill x) = false -> coo_pad veqb x pw cv = Raise ValueError) /\
+    (veqb cv (c_fill x) = true -> padw_neg pw = true -> coo_pad veqb x pw cv = Raise ValueError) /\
     (forall e : exc,
      veqb cv (c_fill x) = true ->
-     pad_pairs (length (c_shape x)) pw = Raise e -> coo_pad veqb x pw cv = Raise e).
+     padw_neg pw = false -> pad_pairs (length (c_shape x)) pw = Raise e -> coo_pad veqb x pw cv = Raise e).
 Proof. exact pad_rejects_proof. Qed.
 Print Assumptions pad_rejects.
-
-(* finding: a negative pad width is accepted when no stored element falls outside (the array is cropped); NumPy raises. *)
-Theorem pad_negative_width_refuted :
-  exists (x : coo Z) (pw : padw) (prs : list (Z * Z)) (r : coo Z),
-      canonical Z x /\
-      pad_pairs (length (c_shape x)) pw = Ok prs /\ ~ pads_nonneg prs /\ coo_pad Z.eqb x pw 0 = Ok r.
-Proof. exact pad_negative_width_refuted_proof. Qed.
-Print Assumptions pad_negative_width_refuted.
 
 (* broadcast_to (and each output of broadcast_arrays): for every target NumPy accepts — new leading axes, length-1 axes
    stretched, length-0 extents — result, canonical form (sorted flag included) and pruned-ness. *)
@@ -437,33 +405,25 @@ Theorem broadcast_to_sorted_rule_sound :
     forall (params : list (option bool)) (bs : shape),
     aligned params (c_shape x) bs ->
     adjacent (true_positions params 0) = true ->
-    Sorted.StronglySorted lex_lt (map fst (expand_entries params bs (entries x))).
+    StronglySorted lex_lt (map fst (expand_entries params bs (entries x))).
 Proof. exact broadcast_to_sorted_rule_sound_proof. Qed.
 Print Assumptions broadcast_to_sorted_rule_sound.
 
-(* PARTIAL (clause broadcast_to_fewer_dims): for a target with at least as many axes as the input, every target NumPy
-   rejects raises ValueError. *)
-Theorem broadcast_to_rejects_partial :
-  forall (V : Type) (x : coo V) (target : list Z),
+(* every target NumPy rejects raises ValueError (fewer axes than the input included, commit 7dd4784). *)
+Theorem broadcast_to_rejects :
+  forall (V : Type) (x : coo V) (target : shape),
     shape_ok (c_shape x) ->
-    (length (c_shape x) <= length target)%nat ->
     np_broadcast_ok (c_shape x) target = false -> coo_broadcast_to x target = Raise ValueError.
 Proof. exact broadcast_to_rejects_proof. Qed.
-Print Assumptions broadcast_to_rejects_partial.
-
-(* finding: broadcast_to(x of shape (2, 3), (3,)) returns x unchanged; NumPy raises ValueError. *)
-Theorem broadcast_to_fewer_dims_refuted :
-  exists (x : coo Z) (target : shape) (r : coo Z),
-      canonical Z x /\ np_broadcast_ok (c_shape x) target = false /\ coo_broadcast_to x target = Ok r.
-Proof. exact broadcast_to_fewer_dims_refuted_proof. Qed.
-Print Assumptions broadcast_to_fewer_dims_refuted.
+Print Assumptions broadcast_to_rejects.
 
 (* ------------------------------------------------------------------------------------------------------------
    GCXS (Model/ShapeOpsG.v over the generated call-site functions Gen/S_shapeops.v).  A GCXS array is taken in the
    form property C05 establishes for every array the library builds: g = _from_coo c ca for a canonical COO array c
    (C05: gcxs_from_coo_wf / gcxs_from_coo_den).  `axes_ok sh ca`: fewer than 2 axes, or ca is a valid choice of
    compressed axes.  The representation theorems say that GCXS.transpose / reshape return EXACTLY (data, indices,
-   indptr, compressed axes) the compressed form of what COO.transpose / reshape return, and raise when they raise. *)
+   indptr, compressed axes) the compressed form of what COO.transpose / reshape return, and raise when they raise.  `veqb`/`add` only parameterise C05's model of GCXS.tocoo. *)
+
 
 (* GCXS.transpose: identity (return self), _2d_transpose (2-d: the same three arrays reinterpreted), and the n-d
    path through _transpose/_convert_coords(transpose=True) with compressed_axes=(argmin(shape),) *)
@@ -482,7 +442,10 @@ Print Assumptions gcxs_transpose_repr.
 
 (* ... hence well-formed (gcxs_wfb) with NumPy's dense meaning *)
 Theorem gcxs_transpose_den :
-  forall (V : Type) (c : coo V) (ca : list Z) (axes : option (list Z)) (r : gcxs V),
+  forall V : Type,
+    (V -> V -> bool) ->
+    (V -> V -> V) ->
+    forall (c : coo V) (ca : list Z) (axes : option (list Z)) (r : gcxs V),
     canonical V c ->
     shape_ok (c_shape c) ->
     axes_ok (c_shape c) ca ->
@@ -497,42 +460,57 @@ Theorem gcxs_transpose_den :
 Proof. exact gcxs_transpose_den_proof. Qed.
 Print Assumptions gcxs_transpose_den.
 
-(* GCXS.reshape / flatten, source and target with at least one axis (0-d GCXS is finding zero_dim_gcxs_dok_input):
-   return self; n-d -> n-d through _transpose/_convert_coords(transpose=False); n-d -> 1-d through _c_ordering;
-   1-d -> n-d through _1d_reshape/_linearize; compressed axes kept when ndim is kept, else (argmin(shape),) *)
+(* GCXS.reshape / flatten: return self; n-d -> n-d through _transpose/_convert_coords(transpose=False); n-d -> 1-d
+   through _c_ordering; 1-d -> n-d through _1d_reshape/_linearize; 0-d source or target through COO (commits 19766c5,
+   ad29c3b); compressed axes kept when ndim is kept, else (argmin(shape),) *)
 Theorem gcxs_reshape_repr :
-  forall (V : Type) (c : coo V) (ca new : list Z),
+  forall (V : Type) (veqb : V -> V -> bool) (add : V -> V -> V) (c : coo V) (ca new : list Z),
     canonical V c ->
     shape_ok (c_shape c) ->
     axes_ok (c_shape c) ca ->
-    (1 <= length (c_shape c))%nat ->
     (forall c' : coo V,
      coo_reshape c new = Ok c' ->
-     (1 <= length (c_shape c'))%nat ->
      exists ca' : list Z,
-       gcxs_reshape (gcxs_from_coo c ca) new = Some (Ok (gcxs_from_coo c' ca')) /\
+       gcxs_reshape veqb add (gcxs_from_coo c ca) new = Some (Ok (gcxs_from_coo c' ca')) /\
        axes_ok (c_shape c') ca') /\
-    (forall e : exc, coo_reshape c new = Raise e -> gcxs_reshape (gcxs_from_coo c ca) new = Some (Raise e)).
+    (forall e : exc,
+     coo_reshape c new = Raise e -> gcxs_reshape veqb add (gcxs_from_coo c ca) new = Some (Raise e)).
 Proof. exact gcxs_reshape_repr_proof. Qed.
 Print Assumptions gcxs_reshape_repr.
 
+(* ... hence well-formed with NumPy's dense meaning, for every source and target (0-d included). *)
 Theorem gcxs_reshape_den :
-  forall (V : Type) (c : coo V) (ca new : list Z) (r : gcxs V),
+  forall (V : Type) (veqb : V -> V -> bool) (add : V -> V -> V) (c : coo V) 
+      (ca new : list Z) (r : gcxs V),
     canonical V c ->
     shape_ok (c_shape c) ->
     axes_ok (c_shape c) ca ->
-    (1 <= length (c_shape c))%nat ->
-    gcxs_reshape (gcxs_from_coo c ca) new = Some (Ok r) ->
-    (1 <= length (g_shape r))%nat ->
+    gcxs_reshape veqb add (gcxs_from_coo c ca) new = Some (Ok r) ->
     gcxs_wfb r = true /\
     size (g_shape r) = size (c_shape c) /\
     g_fill r = c_fill c /\
-    ((count_m1 new <= 1)%nat -> np_reshape_target (c_shape c) new = Ok (g_shape r)) /\
+    np_reshape_target (c_shape c) new = Ok (g_shape r) /\
     (forall ix : idx,
      in_range (g_shape r) ix ->
      gden r ix = np_reshape (c_shape c) (g_shape r) (gden (gcxs_from_coo c ca)) ix).
 Proof. exact gcxs_reshape_den_proof. Qed.
 Print Assumptions gcxs_reshape_den.
+
+(* GCXS.squeeze / GCXS.broadcast_to (commit f52a14b) and the 0-d reshape detour: x.tocoo().<COO function>().asformat("gcxs") is
+   the COO function applied to c, recompressed (so squeeze_den / broadcast_to_den carry over through C05's gcxs_from_coo_den). *)
+Theorem gcxs_via_coo_repr :
+  forall (V : Type) (veqb : V -> V -> bool) (add : V -> V -> V) (c : coo V) 
+      (ca : list Z) (f : coo V -> res (coo V)),
+    canonical V c ->
+    shape_ok (c_shape c) ->
+    axes_ok (c_shape c) ca ->
+    via_coo veqb add (gcxs_from_coo c ca) f =
+    match f c with
+    | Ok c' => Ok (gcxs_from_coo c' (default_caxes (c_shape c')))
+    | Raise e => Raise e
+    end.
+Proof. exact gcxs_via_coo_repr_proof. Qed.
+Print Assumptions gcxs_via_coo_repr.
 
 (* broadcast_arrays: np.broadcast_shapes of the operands' shapes is a target every operand broadcasts to, so each
    output is covered by broadcast_to_den *)
